@@ -264,6 +264,8 @@ def fn_helper(spec, rec):
     for k in range(3):
         d = Data(label="t%d" % k, a=np.arange(3.0) + k, b=np.array([1, 2, 3]), c=np.array(["u", "v", "u"]))
         d.add_component(d.id["a"] * 2, "der")
+        if k != 1:
+            d.add_component(np.array(["2020-01-0%d" % (i + 1) for i in range(3)], dtype="datetime64[D]"), "when")
         if k == 1:
             from glue.core.coordinates import IdentityCoordinates
             d.coords = IdentityCoordinates(n_dim=1)
@@ -286,7 +288,7 @@ def fn_helper(spec, rec):
         for d in attached:
             for cid in d.main_components:
                 kind = d.get_kind(cid)
-                if (kind == "numerical" and flags["numeric"]) or (kind == "categorical" and flags["categorical"]) or (kind == "datetime" and flags.get("datetime", True)):
+                if (kind == "numerical" and flags["numeric"]) or (kind == "categorical" and flags["categorical"]) or (kind == "datetime" and flags["datetime"]):
                     out.append(cid)
             if flags["numeric"] and flags["derived"]:
                 out += [c for c in d.derived_components if c.parent is d]
@@ -347,7 +349,7 @@ def fn_helper(spec, rec):
             if d not in dc:
                 dc.append(d)
         elif kind == "flag":
-            name = ["numeric", "categorical", "pixel_coord", "world_coord", "derived"][op[2] % 5]
+            name = ["numeric", "categorical", "pixel_coord", "world_coord", "derived", "datetime"][op[2] % 6]
             flags[name] = not flags[name]
             setattr(helper, name, flags[name])
         elif kind == "addcomp":
@@ -509,7 +511,7 @@ def viewer_cases(maxops):
 hop = st.one_of(st.tuples(st.sampled_from(["attach", "attach", "detach", "dattach", "ddetach", "dcremove", "dcappend", "flag", "addcomp", "rmcomp", "rename", "select"]), idx, idx)).map(list)
 helper_cases = st.fixed_dictionaries({
     "flags": st.fixed_dictionaries({"numeric": st.booleans(), "categorical": st.booleans(), "pixel_coord": st.booleans(), "world_coord": st.booleans(),
-                                    "derived": st.booleans(), "none": st.sampled_from([False, False, True])}),
+                                    "derived": st.booleans(), "datetime": st.booleans(), "none": st.sampled_from([False, False, True])}),
     "ops": st.lists(hop, min_size=2, max_size=20)})
 
 
